@@ -1,6 +1,8 @@
 (* C18 - the property theorems, nothing else.  Each is closed by [exact] of a lemma proved in Perm/*.v and
-   followed by Print Assumptions.  Model: Perm/PmModel.v.  [pm_eval fv sv f o]: filter f on object o with
-   filter_vars fv in a frame whose `service` variable holds sv (None = the object alone, as the statement reads).
+   followed by Print Assumptions.  Model: Perm/PmModel.v.  A filter frame's namespace [ns] is explicit:
+   [pm_bind ns o] is EvaluateFilter's binding step (obj, the type variable, EVERY navigation field - value or
+   null), [pm_eval fv ns f] reads only [ns]; [pm_eval_opt pf o] = the filter on the object alone (bound into an
+   empty namespace), which is what the statement means by "the filter is true of the object".
    Finding F-C18-a (stale `service` in the shared permission frame) is fixed in /repo (053695b + 17a75cd: the
    namespace is replaced per by-name type iteration and before the filter phase); the model transcribes the
    fixed code and no theorem carries a finding hypothesis any more. *)
@@ -17,16 +19,25 @@ Proof. exact pm_match_case_insensitive. Qed.
 Print Assumptions C18_match_case_insensitive.
 
 (* HasPermission = "some entry matches"; granted + combined filter true of o  ==>  some matching entry whose own
-   filter, if it has one, is true of o (for any frame state sv) *)
+   filter, if it has one, is true of o *)
 Theorem C18_has_permission : forall u perm, fst (pm_has_permission u perm) = pm_spec_has u perm.
 Proof. exact pm_spec_has_correct. Qed.
 Print Assumptions C18_has_permission.
 
-Theorem C18_combined_filter : forall u perm pf sv o,
-  perm <> [] -> pm_check_permission u perm = Some pf -> pm_eval_opt pf sv o = PmT ->
-  pm_spec_allow_sv u perm sv o = true.
+Theorem C18_combined_filter : forall u perm pf o,
+  perm <> [] -> pm_check_permission u perm = Some pf -> pm_eval_opt pf o = PmT ->
+  pm_spec_allow u perm o = true.
 Proof. exact pm_granted_allow. Qed.
 Print Assumptions C18_combined_filter.
+
+(* EvaluateFilter's binding step leaves a frame that depends on the current target only: in a namespace that was
+   used for targets of one type (what GetFilterTargets guarantees since 053695b + 17a75cd), every variable reads
+   the same after binding o as in a fresh namespace - nothing of an earlier target survives, null references
+   included.  only_permitted / by_name_denied / paths_agree below are derived from this, not from an assumption. *)
+Theorem C18_frame_depends_on_target_only : forall ns o,
+  pm_ns_typed (po_type o) ns -> forall v, pm_ns_get (pm_bind ns o) v = pm_ns_get (pm_bind [] o) v.
+Proof. exact pm_frame_depends_on_target_only. Qed.
+Print Assumptions C18_frame_depends_on_target_only.
 
 (* only permitted objects are returned - for all permission lists, queries, inventories, both providers *)
 Theorem C18_only_permitted : forall fast u perm tys q inv objs c,
@@ -40,7 +51,7 @@ Print Assumptions C18_only_permitted.
    object alone (no variable left over from another target) *)
 Theorem C18_only_permitted_filter : forall fast u perm tys q inv objs c,
   pm_filter_targets fast u perm tys q inv = (c, PmOk objs) ->
-  exists pf, pm_check_permission u perm = Some pf /\ forall o, In o objs -> In o inv /\ pm_eval_opt pf None o = PmT.
+  exists pf, pm_check_permission u perm = Some pf /\ forall o, In o objs -> In o inv /\ pm_eval_opt pf o = PmT.
 Proof. exact pm_only_permitted_clean. Qed.
 Print Assumptions C18_only_permitted_filter.
 
@@ -54,7 +65,7 @@ Print Assumptions C18_reject_first.
 (* an object addressed by name (single or in a list) that the permission filter does not accept: error, no objects *)
 Theorem C18_by_name_denied : forall fast u perm tys q inv t n o pf,
   In t tys -> pm_names q t n -> pm_lookup inv t n = Some o ->
-  pm_check_permission u perm = Some pf -> pm_eval_opt pf None o <> PmT ->
+  pm_check_permission u perm = Some pf -> pm_eval_opt pf o <> PmT ->
   exists c e, pm_filter_targets fast u perm tys q inv = (c, PmErr e).
 Proof. exact pm_by_name_denied. Qed.
 Print Assumptions C18_by_name_denied.
@@ -64,20 +75,20 @@ Print Assumptions C18_by_name_denied.
 Theorem C18_paths_agree : forall u perm inv o pf,
   pm_check_permission u perm = Some pf -> pm_lookup inv (po_type o) (po_name o) = Some o ->
   (forall fast, snd (pm_filter_targets fast u perm [po_type o] (pm_q_by_name (po_type o) (po_name o)) inv) = PmOk [o]
-                <-> pm_eval_opt pf None o = PmT) /\
+                <-> pm_eval_opt pf o = PmT) /\
   (forall fast, snd (pm_filter_targets fast u perm [po_type o] (pm_q_by_list (po_type o) (po_name o)) inv) = PmOk [o]
-                <-> pm_eval_opt pf None o = PmT) /\
+                <-> pm_eval_opt pf o = PmT) /\
   (forall uf fv objs, snd (pm_filter_targets false u perm [po_type o] (pm_q_by_type (po_type o) uf fv) inv) = PmOk objs ->
-                (In o objs <-> pm_eval_opt pf None o = PmT /\ match uf with None => True | Some f => pm_eval fv None f o = PmT end)) /\
+                (In o objs <-> pm_eval_opt pf o = PmT /\ pm_ueval fv uf o = PmT)) /\
   (forall objs, po_type o = PmHost ->
                 snd (pm_filter_targets true u perm [po_type o] (pm_q_by_type (po_type o) (Some (PmFName PmScHost (po_name o))) []) inv) = PmOk objs ->
-                (In o objs <-> pm_eval_opt pf None o = PmT)) /\
+                (In o objs <-> pm_eval_opt pf o = PmT)) /\
   (forall objs (swap : bool), po_type o = PmService -> po_name o = po_host o ++ [33] ++ po_short o ->
                 snd (pm_filter_targets true u perm [po_type o]
                        (pm_q_by_type (po_type o)
                           (Some (if swap then PmFAnd (PmFName PmScService (po_short o)) (PmFName PmScHost (po_host o))
                                  else PmFAnd (PmFName PmScHost (po_host o)) (PmFName PmScService (po_short o)))) []) inv) = PmOk objs ->
-                (In o objs <-> pm_eval_opt pf None o = PmT)).
+                (In o objs <-> pm_eval_opt pf o = PmT)).
 Proof. exact pm_paths_agree. Qed.
 Print Assumptions C18_paths_agree.
 
@@ -101,18 +112,22 @@ Theorem C18_source_facts :
   pm_prefix_ok Facts_c18.f_pm_modify_prefix pm_modify_prefix /\ pm_guard_ok Facts_c18.f_pm_modify_guard /\
   pm_prefix_ok Facts_c18.f_pm_delete_prefix pm_delete_prefix /\ pm_guard_ok Facts_c18.f_pm_delete_guard /\
   pm_prefix_ok Facts_c18.f_pm_actions_prefix pm_actions_prefix /\ pm_guard_ok Facts_c18.f_pm_actions_guard /\
-  pm_prefix_ok Facts_c18.f_pm_join_prefix pm_query_prefix /\ pm_guard_ok Facts_c18.f_pm_join_guard.
+  pm_prefix_ok Facts_c18.f_pm_join_prefix pm_query_prefix /\ pm_guard_ok Facts_c18.f_pm_join_guard /\
+  pm_navs_ok Facts_c18.f_pm_nav_host PmHost /\ pm_navs_ok Facts_c18.f_pm_nav_service PmService /\
+  pm_guard_ok Facts_c18.f_pm_bind_guard.
 Proof. exact pm_source_facts. Qed.
 Print Assumptions C18_source_facts.
 
 (* non-vacuity: a user with two matching entries (one filtered), a query by name that is allowed, one denied *)
 Example C18_nonvacuous :
-  let h := {| po_type := PmHost; po_name := [104]; po_short := [104]; po_host := [104]; po_vars := [([111], [108])]; po_hvars := [([111], [108])] |} in
-  let w := {| po_type := PmHost; po_name := [119]; po_short := [119]; po_host := [119]; po_vars := []; po_hvars := [] |} in
+  let h := {| po_type := PmHost; po_name := [104]; po_short := [104]; po_host := [104]; po_vars := [([111], [108])]; po_hvars := [([111], [108])];
+             po_cc := Some [99]; po_cp := None; po_ec := None; po_ce := Some [101] |} in
+  let w := {| po_type := PmHost; po_name := [119]; po_short := [119]; po_host := [119]; po_vars := []; po_hvars := [];
+             po_cc := Some [99]; po_cp := None; po_ec := None; po_ce := None |} in
   let u := [ {| pe_perm := [42]; pe_filter := None |};
-             {| pe_perm := [79;66;74;69;67;84;83;47;42]; pe_filter := Some (PmFVar PmScHost [111] [108]) |} ] in
+             {| pe_perm := [79;66;74;69;67;84;83;47;42]; pe_filter := Some (PmFName (PmScNav PmNCommandEndpoint) [101]) |} ] in
   let perm := pm_query_perm PmHost in
-  pm_check_permission u perm = Some (Some (PmFVar PmScHost [111] [108])) /\
+  pm_check_permission u perm = Some (Some (PmFName (PmScNav PmNCommandEndpoint) [101])) /\
   pm_filter_targets true u perm [PmHost] (pm_q_by_name PmHost [104]) [h; w] = (true, PmOk [h]) /\
   pm_filter_targets true u perm [PmHost] (pm_q_by_name PmHost [119]) [h; w] = (true, PmErr PmErrDenied) /\
   pm_filter_targets true u perm [PmHost] (pm_q_by_type PmHost None []) [h; w] = (true, PmOk [h]).
